@@ -447,6 +447,112 @@ where
     (total, bad)
 }
 
+/// keys (hash of the coordinate bit patterns) of m points; if `want` is non-empty, also the points whose key is wanted
+fn geom_keys<F: DF>(which: Fam, m: u64, seed: u64, want: &[u64]) -> (Vec<u64>, Vec<(u64, Vec<f64>)>)
+where
+    UnitCircle: Distribution<[F; 2]>,
+    UnitDisc: Distribution<[F; 2]>,
+    UnitSphere: Distribution<[F; 3]>,
+    UnitBall: Distribution<[F; 3]>,
+{
+    let chunks = 64u64;
+    let parts: Vec<(Vec<u64>, Vec<(u64, Vec<f64>)>)> = (0..chunks)
+        .into_par_iter()
+        .map(|c| {
+            let mut rng = BaseRng::from_env(hseed(&[seed, c, 0xA70]));
+            let per = (m / chunks) as usize;
+            let mut keys = Vec::with_capacity(per);
+            let mut found = vec![];
+            for _ in 0..per {
+                let v: Vec<f64> = match which {
+                    Fam::UnitCircle => { let p: [F; 2] = UnitCircle.sample(&mut rng); vec![p[0].f(), p[1].f()] }
+                    Fam::UnitDisc => { let p: [F; 2] = UnitDisc.sample(&mut rng); vec![p[0].f(), p[1].f()] }
+                    Fam::UnitSphere => { let p: [F; 3] = UnitSphere.sample(&mut rng); vec![p[0].f(), p[1].f(), p[2].f()] }
+                    _ => { let p: [F; 3] = UnitBall.sample(&mut rng); vec![p[0].f(), p[1].f(), p[2].f()] }
+                };
+                let mut k = 0x9E37_79B9_7F4A_7C15u64;
+                for x in &v {
+                    k = crate::rng::mix(k ^ (x + 0.0).to_bits());
+                }
+                if !want.is_empty() && want.contains(&k) && found.len() < 4 {
+                    found.push((k, v.clone()));
+                }
+                keys.push(k);
+            }
+            (keys, found)
+        })
+        .collect();
+    let mut keys = Vec::with_capacity(m as usize);
+    let mut found = vec![];
+    for (k, f) in parts {
+        keys.extend(k);
+        found.extend(f);
+    }
+    (keys, found)
+}
+
+/// runs of identical keys with count >= min_c: (key, count), most frequent first (at most 8)
+fn key_runs(keys: &mut Vec<u64>, min_c: u64) -> Vec<(u64, u64)> {
+    keys.par_sort_unstable();
+    let mut out = vec![];
+    let mut i = 0;
+    while i < keys.len() {
+        let mut j = i + 1;
+        while j < keys.len() && keys[j] == keys[i] {
+            j += 1;
+        }
+        if (j - i) as u64 >= min_c {
+            out.push((keys[i], (j - i) as u64));
+        }
+        i = j;
+    }
+    out.sort_by(|a, b| b.1.cmp(&a.1));
+    out.truncate(8);
+    out
+}
+
+/// T5 for the geometric samplers: no single point may carry more mass than the granularity allowance of the
+/// float type (the same ρ_abs the bin tests use: 2^-20 for f32, whose 2^-23 uniform grid makes points such as
+/// (-1, 0) legitimate atoms of mass ~1e-7; 2^-48 for f64). Criterion as in stats::atom_stat.
+fn geom_atom_test<F: DF>(ctx: &Ctx, which: Fam, seed: u64, rho_abs: f64)
+where
+    UnitCircle: Distribution<[F; 2]>,
+    UnitDisc: Distribution<[F; 2]>,
+    UnitSphere: Distribution<[F; 3]>,
+    UnitBall: Distribution<[F; 3]>,
+{
+    use crate::stats::{atom_stat, LN_ALPHA_ATOM};
+    let fname = if F::FT == Ft::F32 { "f32" } else { "f64" };
+    let m: u64 = if ctx.thorough() { 1 << 26 } else { 1 << 23 };
+    let (mut keys, _) = geom_keys::<F>(which, m, seed, &[]);
+    let runs = key_runs(&mut keys, 2);
+    drop(keys);
+    ctx.class(&format!("atom_test_points:{}:{}", which.name(), fname), m);
+    let flagged: Vec<(u64, u64)> = runs.into_iter().filter(|&(_, c)| c as f64 / m as f64 > rho_abs && atom_stat(c, m, rho_abs) <= LN_ALPHA_ATOM).collect();
+    if flagged.is_empty() {
+        return;
+    }
+    let want: Vec<u64> = flagged.iter().map(|f| f.0).collect();
+    let (keys2, found) = geom_keys::<F>(which, 4 * m, hseed(&[seed, 0xC0F1]), &want);
+    for (k, c) in flagged {
+        let c2 = keys2.iter().filter(|&&x| x == k).count() as u64;
+        if c2 as f64 / (4 * m) as f64 > rho_abs && atom_stat(c2, 4 * m, rho_abs) <= LN_ALPHA_ATOM {
+            let pt = found.iter().find(|f| f.0 == k).map(|f| format!("{:?}", f.1)).unwrap_or_else(|| "?".into());
+            let cell = Cell::new(which, F::FT, &[]);
+            ctx.violation(Violation {
+                property: ctx.property.clone(),
+                family: which.name(),
+                float: fname.into(),
+                symptom: "atom".into(),
+                trigger: format!("point:{pt}"),
+                what: format!("{}<{}>: the single point {} was returned {} times in {} draws and {} times in {} independent draws; a uniform law on a continuum allows a point mass of at most {:.2e}", which.name(), fname, pt, c, m, c2, 4 * m, rho_abs),
+                case: json!({"kind": "geom", "cell": cell, "n": m}),
+            });
+            break;
+        }
+    }
+}
+
 fn geom_one<F: DF>(ctx: &Ctx, which: Fam, n: u64)
 where
     UnitCircle: Distribution<[F; 2]>,
@@ -479,6 +585,7 @@ where
             rejected.push((k, msg));
         }
     }
+    geom_atom_test::<F>(ctx, which, seed, rho_abs);
     ctx.nontrivial_add(nt);
     ctx.class(&format!("points:{}:{}", which.name(), fname), n);
     ctx.sample(seed, || json!({"sampler": which.name(), "float": fname, "points": n, "bin_layouts": names, "bins_with_count_ge_1000": nt}));
